@@ -53,17 +53,18 @@ let parse_arg tok =
   let opts = if p2 >= String.length tok then [] else split_on '/' (String.sub tok (p2 + 1) (String.length tok - p2 - 1)) in
   let kind = match slot_kind slot with
     | "b" -> DBool | "i" -> DInt | "s" -> DStr | "oi" -> DOptInt | "vi" -> DVecInt | "vs" -> DVecStr
+    | "lc" -> DLevel
     | k -> raise (Unsupported ("slot kind " ^ k)) in
   let idx = int_of_string (after (slot_kind slot) slot) in
   let dflt_init = match kind with
     | DBool -> VBool (idx >= 2) | DInt -> VInt Z0 | DStr -> VStr [] | DOptInt -> VOpt None
-    | DVecInt -> VInts [] | DVecStr -> VStrs [] in
+    | DVecInt -> VInts [] | DVecStr -> VStrs [] | DLevel -> VLevel (Z0, false) in
   let d = ref { a_key = key_of_spec spec; a_kind = kind;
-                a_vmode = (match kind with DBool -> VMNone | _ -> VMRequired);
+                a_vmode = (match kind with DBool -> VMNone | DLevel -> VMOptional | _ -> VMRequired);
                 a_mand = false; a_multi = false; a_sep = n_of_int 44; a_clear = false; a_sort = false;
                 a_uniq = false; a_uniq_err = false; a_checks = []; a_fmts = [];
-                a_card = (match kind with DVecInt | DVecStr -> CardNone | _ -> CardMax (z_of_int 1));
-                a_excl = []; a_req = []; a_depr = false } in
+                a_card = (match kind with DVecInt | DVecStr | DLevel -> CardNone | _ -> CardMax (z_of_int 1));
+                a_excl = []; a_req = []; a_depr = false; a_mix = false } in
   let init = ref dflt_init in
   let is_cont = (kind = DVecInt || kind = DVecStr) in
   List.iter (fun o ->
@@ -76,7 +77,8 @@ let parse_arg tok =
       | "man" -> if kind = DBool || d0.a_depr then raise Setup else d := { d0 with a_mand = true }
       | "vm" -> (match v with
           | "req" -> if d0.a_vmode = VMRequired then () else if is_cont then raise Setup else d := { d0 with a_vmode = VMRequired }
-          | "opt" -> if d0.a_vmode = VMOptional then () else raise (Unsupported "vm=opt")
+          | "opt" -> if d0.a_vmode = VMOptional then () else if kind = DLevel then d := { d0 with a_vmode = VMOptional }
+                     else raise (Unsupported "vm=opt")
           | _ -> raise (Unsupported "vm"))
       | "multi" -> if is_cont then d := { d0 with a_multi = true } else raise Setup
       | "sep" -> if is_cont then d := { d0 with a_sep = n_of_int (int_of_string ("0x" ^ v)) } else raise Setup
@@ -85,6 +87,7 @@ let parse_arg tok =
       | "uniq" -> if is_cont then d := { d0 with a_uniq = true; a_uniq_err = false } else raise Setup
       | "uniq!" -> if is_cont then d := { d0 with a_uniq = true; a_uniq_err = true } else raise Setup
       | "depr" -> if d0.a_mand then raise Setup else d := { d0 with a_depr = true }
+      | "mix" -> if kind = DLevel then d := { d0 with a_mix = true } else raise Setup
       | "card" -> (match p with
           | ["max"; n] -> d := { d0 with a_card = CardMax (z_of_int (int_of_string n)) }
           | ["exact"; n] -> d := { d0 with a_card = CardExact (z_of_int (int_of_string n)) }
@@ -92,6 +95,9 @@ let parse_arg tok =
           | _ -> d := { d0 with a_card = CardNone })
       | "chk" ->
           if kind = DBool then raise Setup;
+          (match kind, p with
+           | DLevel, ("values" | "minlen" | "maxlen" | "pattern") :: _ -> raise (Unsupported "text check on level counter")
+           | _ -> ());
           let c = match p with
             | ["lower"; x] -> CLower (z_of_int (int_of_string x))
             | ["upper"; x] -> CUpper (z_of_int (int_of_string x))
@@ -114,7 +120,8 @@ let parse_arg tok =
           | DBool -> VBool (v = "1") | DInt -> VInt (z_of_int (int_of_string v)) | DStr -> VStr (str_of_string (unhex v))
           | DOptInt -> VOpt (Some (z_of_int (int_of_string v)))
           | DVecInt -> VInts (List.map (fun x -> z_of_int (int_of_string x)) p)
-          | DVecStr -> VStrs (List.map (fun x -> str_of_string (unhex x)) p))
+          | DVecStr -> VStrs (List.map (fun x -> str_of_string (unhex x)) p)
+          | DLevel -> raise (Unsupported "init on level counter"))
       | "desc" | "hidden" | "nodef" | "def" -> ()
       | "" -> ()
       | o -> raise (Unsupported ("option " ^ o))) opts;
@@ -128,6 +135,7 @@ let show_value = function
   | VOpt (Some z) -> string_of_int (int_of_z z)
   | VInts l -> "[" ^ String.concat "," (List.map (fun z -> string_of_int (int_of_z z)) l) ^ "]"
   | VStrs l -> "[" ^ String.concat "," (List.map (fun s -> "s" ^ hex (string_of_str s)) l) ^ "]"
+  | VLevel (z, _) -> string_of_int (int_of_z z)
 
 let () =
   let ic = if Array.length Sys.argv > 1 then open_in Sys.argv.(1) else stdin in
